@@ -74,6 +74,11 @@ func (l *RateLimiter) Acquire(ctx context.Context, tokens int) (err error) {
 			// refusals kept the limiter shut for minutes)
 			return core.ErrTimeout
 		}
+		if deadline, ok := ctx.Deadline(); ok && last > now && last > deadline.UnixNano() {
+			// the caller will have given up before its permits are due: turned away at once
+			// and, like the callers above, without taking anything
+			return context.DeadlineExceeded
+		}
 		permits := float64(now-last)/l.interval - float64(tokens)
 		if permits > l.maxPermits {
 			permits = l.maxPermits
